@@ -5,9 +5,10 @@ import vlib
 TARGETS = ["Base/Corr.vo", "C12/Spec.vo", "C12/ModelS.vo", "C12/ModelM.vo", "C12/ModelH.vo", "C12/ProofsS.vo", "C12/ProofsClone.vo",
            "C12/ProofsSW.vo", "C12/ProofsSWExample.vo", "C12/ProofsM.vo", "C12/ProofsV.vo", "C12/ProofsH.vo", "C12/Corr.vo", "C12/CorrZ.vo",
            "C12/CorrH.vo", "C12/ModelId.vo", "C12/CorrI.vo", "C12/ProofsId.vo",
-           "C12/ModelJ.vo", "C12/ProofsJ.vo", "C12/ProofsRefuted3.vo", "C12/CorrJ.vo", "C12/Props.vo"]
+           "C12/ModelJ.vo", "C12/ProofsJ.vo", "C12/ProofsRefuted3.vo", "C12/CorrJ.vo",
+           "C12/ModelConv.vo", "C12/ProofsConv.vo", "C12/ModelIt.vo", "C12/ProofsIt.vo", "C12/CorrA.vo", "C12/Props.vo"]
 PROPS = ["C12/Props.v"]
-STREAMS = [("scases", "S"), ("jcases", "J"), ("mcases", "M"), ("vcases", "V"), ("ecases", "E"), ("hcases", "H")]
+STREAMS = [("scases", "S"), ("jcases", "J"), ("ccases", "C"), ("icases", "I"), ("mcases", "M"), ("vcases", "V"), ("ecases", "E"), ("hcases", "H")]
 PARTIAL = (
     "Proved in Coq, for ALL carriers / register files / heaps / histories, about the models coq/C12/ModelS.v (scalars and dense "
     "vectors of magic scalars as object ids over C01's register file), coq/C12/ModelM.v (dense matrix handles over C10's storage "
@@ -47,6 +48,27 @@ PARTIAL = (
     "read-only operands, copy = source, slice identity, >= 20 mutations. NOT in ModelId: the temporaries of composite instructions "
     "other than Vmean/VdotV/Mtrace (LogAdd/LogSub are generated only on their operand-copying short cuts), MDOTM's tmp vectors and the "
     "sparse containers (covered by stream J's structural check at run time, not by a model). "
+    "(8, round 5) AS-CONVERSIONS AT CELL GRANULARITY: coq/C12/ModelConv.v models a container as the list (position, scalar cell) it "
+    "owns (dense: one cell per position = a pointer into the backing array; sparse: one per stored position) and every As-conversion as "
+    "coded (same concrete type = Clone; to dense = new cell per position; to sparse = new cell per position the source's iterator visits, "
+    "whose skip() drops the source's stored nulls); every later mutation is an arbitrary receiver-only transformer. Proved for every "
+    "carrier in which null means zero and EVERY history (further conversions, new containers, any number of mutations): a conversion "
+    "allocates only new cells, its result reads like the source, the source reads as before, all containers keep pairwise disjoint cell "
+    "sets, and a container that is not the receiver of a mutation reads the same for ever (conversion_is_a_deep_copy, "
+    "mutation_after_conversion_invisible_through_the_other); the dense->sparse fast path storing AT(i) is refuted as a model. Stream C "
+    "ties it: all 1566 (from x to) pairs — 36 typed As<Rep><T>{Vector,Matrix}, the generic As{Dense,Sparse}[Magic]{Vector,Matrix}(t, x) for "
+    "every t, the 7 AsSparseConst<T>Vector, each from the 18 source types of the shape; the table is checked against the library source with "
+    "go/ast on every run — in rotation (every same-element-type pair on every run), sources with non-zero entries and stored zeros, >= 20 "
+    "real mutations of both sides (element writes, Reset, in-place VaddV/VsubV/VmulS/MaddM/.., Set, iterator write loops), every container "
+    "observed after every step (value and derivatives), stored positions predicted by the model, storage labels from a reflection walk "
+    "pairwise disjoint. (9, round 5) ITERATOR CLONES: coq/C12/ModelIt.v models plain iterators as heap objects and the joint iterator's "
+    "Next()/Clone() as coded (two cursor pointers it1, it2 + idx, s1, s2, ok); proved for EVERY history of new iterators / Next / Clone "
+    "(clones of clones): after it an iterator is in its old state advanced by exactly the Next() calls addressed at it, a clone starts in "
+    "its source's state, Next writes only the iterator's own two cursor objects (iterator_clones_independent, iterator_clone_equals_source); "
+    "a joint clone sharing it2 is refuted. Stream I ties it on all 36 container types x the 18 second-operand types in rotation, the three "
+    "clone methods of each iterator type, every live iterator observed after every step. NOT in ModelIt: Joint3 iterators and the "
+    "underscore variants (not clonable in the library), the SparseConst vector iterators, containers written while iterators live "
+    "(C11's stale-iterator model). "
     "NOT proved / partial: the entry-point theorems are about the generic wrapper with an abstract body (body_frames / body_ok); that each "
     "concrete algorithm of /repo/algorithm is such a body is NOT proved — for all 29 Run* entry points x 1155 option combinations "
     "and the 42 distribution constructors the harness's before/after snapshot comparison (evaluated in Coq, bit-exact) is the "
@@ -105,6 +127,7 @@ def is_known(finding):
 
 
 def corr(ctx, binary, n):
+    os.environ["C12_REPO"] = vlib.REPO          # stream C enumerates the library's As* functions from its source (go/ast)
     rc, out = vlib.run_harness(ctx, binary, n)
     if rc != 0:
         ctx.violation({"obligation": "C12 harness run", "log": out[-3000:]}, False,
@@ -136,6 +159,13 @@ def corr(ctx, binary, n):
                 b.append(cases[k * meta["per_shard"] + i])
         bad[tag] = b
         ctx.log("stream %s: %d cases in %d shards, %d flagged by Coq" % (tag, len(cases), len(res), len(b)))
+        if tag == "C":
+            unc = (meta.get("extra") or {}).get("conversion_functions_uncovered") or []
+            ctx.oblige(1, 0 if unc else 1)
+            if unc:
+                ctx.violation({"obligation": "C12 stream C: every As* conversion function of the library source is in the ownership table",
+                               "uncovered": unc}, False,
+                              "tie lost: the library has As-conversion entry points the conversion stream does not reach: %s" % ", ".join(unc))
     return bad
 
 
@@ -159,6 +189,9 @@ def run(ctx):
         "entry-point stream: the role table of harness/c12/entry (which objects are inputs, InSitu buffers, documented output arguments)",
         "streams S/J: reflect.Value.Pointer() of the exported slices Derivative / Hessian / Hessian[i] as the identity of a backing array "
         "(zero-capacity slices have none); stream J reads the unexported value map of the sparse Real containers by reflection",
+        "streams C/I (round 5): harness/c12/entry/footprint.go's reflection walk as the identity of the storage a container reaches; the keys "
+        "of the unexported map `values` as the stored positions of a sparse container; reflect.MethodByName for the iterator methods; the "
+        "rule which To-dense conversions walk the source's iterator (AsDense<plain>Vector, AsSparseConst*) is read off the source by hand",
         "stream H: harness/c12/entry/footprint.go (reflection walk: every pointer target, backing array up to capacity and map header "
         "reachable from an object, library types only) as the definition of storage identity; SHA-256 digests of snapshots"]
     ctx.cov["partial"] = PARTIAL
@@ -173,7 +206,7 @@ def run(ctx):
         return
     n = 160 if ctx.tier == "quick" else 1600
     bad = corr(ctx, binary, n)
-    handed = [c for tag in ("J", "H", "S", "M", "V", "E") for c in bad.get(tag, [])]
+    handed = [c for tag in ("C", "I", "J", "H", "S", "M", "V", "E") for c in bad.get(tag, [])]
     finds = hunt(ctx, binary, handed)
     unknown = []
     for f in finds:
@@ -187,7 +220,7 @@ def run(ctx):
     # E cases flagged by Coq that are not covered by a known finding
     e_unknown = [c for c in bad.get("E", []) if not is_known({"stream": "E", "case": c, "failure": ""})]
     h_unknown = [c for c in bad.get("H", []) if not is_known({"stream": "H", "case": c, "failure": ""})]
-    model_bad = [c for tag in ("S", "J", "M", "V") for c in bad.get(tag, [])]
+    model_bad = [c for tag in ("C", "I", "S", "J", "M", "V") for c in bad.get(tag, [])]
     for f in unknown[:5]:
         ctx.violation({"case": f["case"], "failure": f["failure"], "site": f["site"], "at": f.get("at"),
                        "broken": [x["target"] for x in failures] + (["correspondence C12"] if model_bad else [])}, True,
